@@ -114,6 +114,16 @@ def gen_cases(tier, rng):
             ck = good if rng.random() < 0.5 else bytes([good[0] ^ rng.choice([0, 1]), good[1], good[2], good[3] ^ rng.choice([0, 128])])
             ops.append([1, ty, 1, n, seg] + list(ck) + list(data))
         cases.append(ops)
+    # files and chunk lengths beyond one 4096-byte block (a segment length derived from a large max_packet_len)
+    for _ in range(4 if tier == "quick" else 60):
+        ln = rng.choice([4097, 5000, 8192, 8193, 10000])
+        data = bytes(rng.getrandbits(8) for _ in range(ln))
+        ops = []
+        for ty in TYPES.values():
+            for seg in (4095, 4096, 4097, 5000, 8178, ln, ln + 1):
+                for n in (ln, ln - 1, 4097, rng.randint(4097, ln)):
+                    ops.append([0, ty, 1, n, seg] + list(data))
+        cases.append(ops)
     # hostile / outside the quantifier (correspondence only)
     host = []
     for data in [b"", b"\x01\x02\x03\x04\x05"]:
